@@ -136,7 +136,8 @@ class CFG:
     @property
     def pdom(self):
         if self._pdom is None:
-            exits = [i for i in self.reach if not self.succ[i]]
+            # post-dominance w.r.t. normal termination: diverging blocks (panics) are not exits
+            exits = list(self.returns) or [i for i in self.reach if not self.succ[i]]
             self._pdom = self._idom(self.pred, self.succ, exits)
         return self._pdom
 
@@ -157,7 +158,7 @@ class CFG:
         return self._dominates(self.dom, a, b)
 
     def postdominates(self, a, b):
-        """every path b -> (any exit, including diverging ones) passes a"""
+        """every path b -> return passes a (paths into panics are ignored)"""
         return self._dominates(self.pdom, a, b)
 
     def ipdom(self, b):
